@@ -77,4 +77,198 @@ theorem nodeOut_setTy_self (b : Builder) (k : Key) (t : Ty) (h1 : k ≠ START) (
   simp only [Builder.nodeOut, Builder.setTy, h1, h2, ↓reduceIte, findNode_setTyIn_eq, Builder.hasNode]
   exact auxOut _ _
 
+
+theorem findNode_mem {ns : List Node} {k : Key} {n : Node} (h : findNode ns k = some n) : n ∈ ns ∧ n.key = k := by
+  induction ns with
+  | nil => simp [findNode] at h
+  | cons m ns ih =>
+    simp only [findNode] at h
+    split at h
+    · rename_i hk; simp at h; subst h; exact ⟨List.mem_cons_self, hk⟩
+    · have := ih h; exact ⟨List.mem_cons_of_mem _ this.1, this.2⟩
+
+/-! ### invariants -/
+
+def NodeOK (n : Node) : Prop :=
+  (n.passthrough = true → n.inTy = n.outTy) ∧ (n.passthrough = false → n.inTy.isSome ∧ n.outTy.isSome)
+
+/-- pass-through nodes have one type for both sides, other nodes are fully typed -/
+def WF (b : Builder) : Prop := ∀ n ∈ b.nodes, NodeOK n
+
+theorem WF.untyped_iff {b : Builder} (hw : WF b) (k : Key) : b.nodeIn k = none ↔ b.nodeOut k = none := by
+  unfold Builder.nodeIn Builder.nodeOut
+  by_cases h1 : k = START
+  · simp [h1]
+  · by_cases h2 : k = END
+    · simp [h1, h2]
+    · simp only [h1, h2, ↓reduceIte]
+      rcases hf : findNode b.nodes k with _ | n
+      · simp
+      · have hn := hw n (findNode_mem hf).1
+        simp only
+        cases hp : n.passthrough
+        · have := hn.2 hp
+          constructor
+          · intro h; rw [h] at this; simp at this
+          · intro h; rw [h] at this; simp at this
+        · rw [hn.1 hp]
+
+theorem setTyIn_ok (ns : List Node) (k : Key) (t : Ty) (h : ∀ n ∈ ns, NodeOK n) :
+    ∀ n ∈ setTyIn ns k t, NodeOK n := by
+  induction ns with
+  | nil => simp [setTyIn]
+  | cons m ns ih =>
+    intro n hn
+    simp only [setTyIn] at hn
+    split at hn
+    · rcases List.mem_cons.mp hn with e | e
+      · subst e; exact ⟨fun _ => rfl, fun _ => ⟨rfl, rfl⟩⟩
+      · exact h n (List.mem_cons_of_mem _ e)
+    · rcases List.mem_cons.mp hn with e | e
+      · subst e; exact h _ List.mem_cons_self
+      · exact ih (fun x hx => h x (List.mem_cons_of_mem _ hx)) n e
+
+theorem WF.setTy {b : Builder} (hw : WF b) (k : Key) (t : Ty) : WF (b.setTy k t) := by
+  intro n hn
+  exact setTyIn_ok b.nodes k t hw n hn
+
+/-- everything an inference step leaves alone -/
+def Builder.frame (b : Builder) :=
+  (b.cmp, b.inT, b.outT, b.stateTy, b.controlEdges, b.dataEdges, b.branches, b.startNodes, b.endNodes,
+   b.fmRecords, b.mapEdges, b.preBranch, b.preNode, b.buildError, b.compiled,
+   b.nodes.map (fun n => (n.key, n.passthrough)))
+
+def Frame (b b' : Builder) : Prop := b'.frame = b.frame
+
+theorem Frame.refl (b : Builder) : Frame b b := rfl
+theorem Frame.trans {a b c : Builder} (h1 : Frame a b) (h2 : Frame b c) : Frame a c := by
+  unfold Frame at *; rw [h2, h1]
+
+theorem setTyIn_keys (ns : List Node) (k : Key) (t : Ty) :
+    (setTyIn ns k t).map (fun n => (n.key, n.passthrough)) = ns.map (fun n => (n.key, n.passthrough)) := by
+  induction ns with
+  | nil => rfl
+  | cons m ns ih =>
+    simp only [setTyIn]
+    split
+    · simp
+    · simp [ih]
+
+theorem Frame.setTy (b : Builder) (k : Key) (t : Ty) : Frame b (b.setTy k t) := by
+  simp [Frame, Builder.frame, Builder.setTy, setTyIn_keys]
+
+theorem findNode_isSome_of_keys {ns ms : List Node}
+    (h : ms.map (fun n => (n.key, n.passthrough)) = ns.map (fun n => (n.key, n.passthrough))) (k : Key) :
+    (findNode ms k).isSome = (findNode ns k).isSome ∧
+    (findNode ms k).map (·.passthrough) = (findNode ns k).map (·.passthrough) := by
+  induction ns generalizing ms with
+  | nil => cases ms with
+    | nil => simp [findNode]
+    | cons m ms => simp at h
+  | cons n ns ih =>
+    cases ms with
+    | nil => simp at h
+    | cons m ms =>
+      simp only [List.map_cons, List.cons.injEq, Prod.mk.injEq] at h
+      simp only [findNode, h.1.1]
+      split
+      · simp [h.1.2]
+      · exact ih h.2
+
+theorem Frame.hasNode {b b' : Builder} (h : Frame b b') (k : Key) : b'.hasNode k = b.hasNode k := by
+  have hk : b'.nodes.map (fun n => (n.key, n.passthrough)) = b.nodes.map (fun n => (n.key, n.passthrough)) := by
+    have := h; simp only [Frame, Builder.frame, Prod.mk.injEq] at this; exact this.2.2.2.2.2.2.2.2.2.2.2.2.2.2.2
+  exact (findNode_isSome_of_keys hk k).1
+
+theorem Frame.isPassthrough {b b' : Builder} (h : Frame b b') (k : Key) :
+    EinoV.Build.isPassthrough b' k = EinoV.Build.isPassthrough b k := by
+  have hk : b'.nodes.map (fun n => (n.key, n.passthrough)) = b.nodes.map (fun n => (n.key, n.passthrough)) := by
+    have := h; simp only [Frame, Builder.frame, Prod.mk.injEq] at this; exact this.2.2.2.2.2.2.2.2.2.2.2.2.2.2.2
+  have := (findNode_isSome_of_keys hk k).2
+  unfold EinoV.Build.isPassthrough
+  rcases h1 : findNode b'.nodes k with _ | n1 <;> rcases h2 : findNode b.nodes k with _ | n2 <;> simp_all
+
+/-- known types stay, run-time check marks stay -/
+structure Mono (b b' : Builder) : Prop where
+  tin : ∀ k t, b.nodeIn k = some t → b'.nodeIn k = some t
+  tout : ∀ k t, b.nodeOut k = some t → b'.nodeOut k = some t
+  may : ∀ x, x ∈ b.mayEdges → x ∈ b'.mayEdges
+
+theorem Mono.refl (b : Builder) : Mono b b := ⟨fun _ _ h => h, fun _ _ h => h, fun _ h => h⟩
+theorem Mono.trans {a b c : Builder} (h1 : Mono a b) (h2 : Mono b c) : Mono a c :=
+  ⟨fun k t h => h2.tin k t (h1.tin k t h), fun k t h => h2.tout k t (h1.tout k t h), fun x h => h2.may x (h1.may x h)⟩
+
+theorem hasNode_of_nodeIn {b : Builder} {k : Key} {t : Ty} (h : b.nodeIn k = some t)
+    (h1 : k ≠ START) (h2 : k ≠ END) : b.hasNode k = true := by
+  unfold Builder.nodeIn at h
+  simp only [h1, h2, ↓reduceIte] at h
+  unfold Builder.hasNode
+  rcases hf : findNode b.nodes k with _ | n
+  · simp [hf] at h
+  · rfl
+
+theorem hasNode_of_nodeOut {b : Builder} {k : Key} {t : Ty} (h : b.nodeOut k = some t)
+    (h1 : k ≠ START) (h2 : k ≠ END) : b.hasNode k = true := by
+  unfold Builder.nodeOut at h
+  simp only [h1, h2, ↓reduceIte] at h
+  unfold Builder.hasNode
+  rcases hf : findNode b.nodes k with _ | n
+  · simp [hf] at h
+  · rfl
+
+theorem nodeIn_setTy_reserved (b : Builder) (k k' : Key) (t : Ty) (h : k' = START ∨ k' = END) :
+    (b.setTy k t).nodeIn k' = b.nodeIn k' := by
+  rcases h with h | h <;> simp [Builder.nodeIn, Builder.setTy, h]
+
+theorem nodeOut_setTy_reserved (b : Builder) (k k' : Key) (t : Ty) (h : k' = START ∨ k' = END) :
+    (b.setTy k t).nodeOut k' = b.nodeOut k' := by
+  rcases h with h | h <;> simp [Builder.nodeOut, Builder.setTy, h]
+
+/-- what `setTy k t` does to any key's types: unchanged, or now `t` -/
+theorem setTy_cases (b : Builder) (k : Key) (t : Ty) (x : Key) :
+    ((b.setTy k t).nodeIn x = b.nodeIn x ∨ (x = k ∧ (b.setTy k t).nodeIn x = some t)) ∧
+    ((b.setTy k t).nodeOut x = b.nodeOut x ∨ (x = k ∧ (b.setTy k t).nodeOut x = some t)) := by
+  by_cases hx : x = k
+  · subst hx
+    by_cases hr : x = START ∨ x = END
+    · exact ⟨Or.inl (nodeIn_setTy_reserved b x x t hr), Or.inl (nodeOut_setTy_reserved b x x t hr)⟩
+    · have h1 : x ≠ START := fun e => hr (Or.inl e)
+      have h2 : x ≠ END := fun e => hr (Or.inr e)
+      rw [nodeIn_setTy_self b x t h1 h2, nodeOut_setTy_self b x t h1 h2]
+      cases hh : b.hasNode x
+      · have hi : b.nodeIn x = none := by
+          unfold Builder.nodeIn; simp only [h1, h2, ↓reduceIte]
+          unfold Builder.hasNode at hh
+          rcases hf : findNode b.nodes x with _ | n
+          · rfl
+          · simp [hf] at hh
+        have ho : b.nodeOut x = none := by
+          unfold Builder.nodeOut; simp only [h1, h2, ↓reduceIte]
+          unfold Builder.hasNode at hh
+          rcases hf : findNode b.nodes x with _ | n
+          · rfl
+          · simp [hf] at hh
+        simp [hi, ho]
+      · simp
+  · exact ⟨Or.inl (nodeIn_setTy_ne b k x t hx), Or.inl (nodeOut_setTy_ne b k x t hx)⟩
+
+theorem Mono.setTy (b : Builder) (k : Key) (t : Ty)
+    (hi : b.nodeIn k = none ∨ b.nodeIn k = some t) (ho : b.nodeOut k = none ∨ b.nodeOut k = some t) :
+    Mono b (b.setTy k t) := by
+  refine ⟨?_, ?_, fun x h => h⟩
+  · intro x t0 hx
+    rcases (setTy_cases b k t x).1 with e | ⟨e1, e2⟩
+    · rw [e]; exact hx
+    · subst e1
+      rcases hi with hi | hi
+      · rw [hi] at hx; simp at hx
+      · rw [hi] at hx; rw [e2]; exact hx
+  · intro x t0 hx
+    rcases (setTy_cases b k t x).2 with e | ⟨e1, e2⟩
+    · rw [e]; exact hx
+    · subst e1
+      rcases ho with ho | ho
+      · rw [ho] at hx; simp at hx
+      · rw [ho] at hx; rw [e2]; exact hx
+
 end EinoV.Build
